@@ -123,6 +123,30 @@ def _job(job):
                         out2 = f'{type(e).__name__}: {str(e)[:80]}'
                     if out2 != out:
                         acc.violation(Viol('explicit-default', 'differs-from-omitting-the-option', dict(case, explicit=key, value=repr(val)[:60]), out, out2))
+                # the same option VALUES written differently (order, repetition, container type) while the other options are in force
+                forms = []
+                if len(kw.get('spine_ids', ())) >= 2:
+                    ids_ = kw['spine_ids']
+                    forms += [('spine_ids', ids_[::-1]), ('spine_ids', ids_ + ids_[-1:] + ids_[:1]), ('spine_ids', tuple(ids_[::-1]))]
+                if len(kw.get('spine_types', ())) >= 2:
+                    ts_ = kw['spine_types']
+                    forms += [('spine_types', ts_[::-1]), ('spine_types', ts_ + ts_[:1])]
+                if 'include' in kw:
+                    forms += [('include', sorted(kw['include'], key=lambda c: c.name)), ('include', tuple(sorted(kw['include'], key=lambda c: c.name, reverse=True)))]
+                if 'exclude' in kw:
+                    forms += [('exclude', sorted(kw['exclude'], key=lambda c: c.name, reverse=True))]
+                if forms:
+                    key, val = forms[k % len(forms)]
+                    kw3 = dict(kw)
+                    kw3[key] = val
+                    acc.count('transitions')
+                    try:
+                        out3 = kp.dumps(doc, **kw3)
+                    except Exception as e:  # noqa
+                        out3 = f'{type(e).__name__}: {str(e)[:80]}'
+                    if out3 != out:
+                        acc.violation(Viol('written-form-of-an-option', 'export-depends-on-order-repetition-or-container-of-the-option-value',
+                                           dict(case, option=key, written=repr(val)[:80]), out, out3))
     if part == 0:
         # the options-OBJECT interface (Exporter.export_string / kp.export): one ExportOptions instance reused for a smaller document first
         small, _ = kp.loads('**kern\n*clefG2\n=1\n4c\n=2\n4d\n*-\n')
